@@ -249,3 +249,24 @@ Definition call_cb (m : meth) (f : callback) (l : list elem) : elem * list elem 
   end.
 Definition call_reduce (f : rcallback) (l : list elem) (init : list elem) : elem * list elem :=
   (m_reduce f l (ENull :: bind [PSingle] init), l).
+
+(* ------------------------------------------------------------------ sequences of calls on one receiver *)
+(* one step of a sequence: a callback-free method with its arguments, a callback method with its
+   callback, or reduce *)
+Inductive step :=
+| StCall (m : meth) (args : list elem)
+| StCb (m : meth) (f : callback)
+| StRed (f : rcallback) (init : list elem).
+Definition do_step (l : list elem) (s : step) : elem * list elem :=
+  match s with
+  | StCall m args => call m l args
+  | StCb m f => call_cb m f l
+  | StRed f init => call_reduce f l init
+  end.
+(* the receiver object carries its contents from one call to the next; whatever else the Go slice
+   carries (spare capacity, backing array) must not be observable *)
+Fixpoint run_seq (l : list elem) (ss : list step) : list (elem * list elem) :=
+  match ss with
+  | [] => []
+  | s :: r => let p := do_step l s in p :: run_seq (snd p) r
+  end.
